@@ -70,9 +70,11 @@ func init() {
 			}
 			return strings.Join(lines, "\n")
 		}
-		for p := 1; p <= n; p++ {
-			for c := 1; c <= n; c++ {
-				for s := 1; s <= n; s++ {
+		/* 0 lines = the empty string (nothing above / below the cursor), which is one empty line
+		   to Height but a different value to the code */
+		for p := 0; p <= n; p++ {
+			for c := 0; c <= n; c++ {
+				for s := 0; s <= n; s++ {
 					for h := 1; h <= 2*n+2; h++ {
 						emit(Op{"op": "center", "prefix": mk(p, "p"), "centered": mk(c, "c"), "suffix": mk(s, "s"), "h": h})
 					}
